@@ -137,7 +137,7 @@ theorem roundtrip_aka_only_partial (us : List String) (hne : us ≠ []) :
       | nil => exact absurd rfl hne
       | cons _ _ => simp [listOrNull]
     have hf : us.filter (fun _ => true) = us := List.filter_eq_self.mpr (fun _ _ => rfl)
-    simp [applyPatches, applyPatch, hp, hv, stringArray, Json.get?, Json.lookup, hs, orderedUnion, setDoc, members,
+    simp [applyPatches, applyPatch, hp, hv, stringArray, Json.get?, Json.lookup, hs, akaUnion, rawList, setDoc, members,
       Json.setMember, hf, hl]
 
 /-! ### no patch without content (D40) -/
